@@ -14,6 +14,10 @@ Key files ON DISK (`harness/impl/c17_keyfile.py`): chains init -o → add-key -o
 (shorter, longer, equally long) key of the chain / another repository's key / arbitrary content; every file is read back from
 disk and handed to a FRESH repository (never the in-process return value); the model (`settings.keydisk`, the way the path is
 opened regenerated from the source) must predict every file after every invocation.
+Settings WRITTEN ON THE COMMAND LINE (`harness/impl/c17_cli.py`, stream `cli_stream_*` at the end of this file): generated argument
+lists through the real `parse_cli_settings` + `flat_to_nested` in-process and through the real `main()` in a child interpreter
+up to the handler (the `settings=` that `Repository.init` / `add_key` / `benchmark` receive), against `settings.cli.*`; direct
+oracle: `replicat init … <flags>` and `init(settings=dict)` leave the same stored config and the same KDF section in the key.
 """
 import json
 import math
@@ -732,7 +736,13 @@ def run(out, drv, info):
                 'of different serialised length, 6 repositories) over 1–4 output paths that are absent / hold an earlier key of the chain (shorter, longer, equal) / '
                 'another repository\'s key / bytes, text, JSON or white space of a length relative to the key about to be written (−40 … +300, equal) — '
                 'every file read back from disk by a fresh repository, non-trivial = ≥ 2 key files written; plus in-place key rotations through the CLI in '
-                'separate interpreters; distinct = hash of the case')
+                'separate interpreters; distinct = hash of the case; command line: argument lists = corpus (conflicts in both orders, flag after flag, value '
+                'without flag, trailing flag, repeated flag, single / triple dash, `{}` / `[]` values) + canonical renderings of lattice points (as is, shuffled, respelled as the README spells values, '
+                'with `-` for `_` and extra dashes, with a repeated flag, with a dotted-prefix conflict, with left-over arguments) + token soup (29 flags × 55 '
+                'values) + literal-looking values on lattice keys — all through the real parse_cli_settings + flat_to_nested, a subset through the real main() in a '
+                'child interpreter per case (init / add-key / benchmark / list-snapshots) and a subset of lattice points through `python -m replicat init` against '
+                'init(settings=dict); dicts with dotted keys in random insertion order through flat_to_nested (children order compared); guess_type on every text '
+                'of length ≤ 2 over a 24-character alphabet + random longer ones + a corpus of literals')
     out.assumptions = [
         'ideal cryptography in the key-chain theorems: KDF injective in (parameters, salt, password), AEAD opens only with the sealing key; os.urandom fresh',
         '`usable` encodes third-party preconditions (hashlib.blake2b digest 1…64, AES key 128/192/256 bits, AES-GCM nonce 8…128 bytes, scrypt n = 2^k > 1, '
@@ -742,6 +752,11 @@ def run(out, drv, info):
         'the dict backend stands for every backend: init and add-key only call backend.upload / download',
         'key files: the output path is a regular file or absent, in a writable directory of a POSIX file system; symlinks, read-only files, '
         'directories at the path and concurrent writers are outside the model; `deserialize ∘ serialize = id` on keys (hypothesis `hparse`) is validated on every written key',
+        'command line: the model starts at the arguments the second `parse_known_args` leaves unknown (argparse itself — abbreviations, `--`, known options — is '
+        'outside; the run records whether argparse passed the generated arguments through unchanged); `guess_type` is modelled on texts of ≤ 256 printable ASCII '
+        'characters that are empty, none / true / false in any case, a signed decimal or hexadecimal integer literal, a quoted string without that quote and '
+        'without backslash, or a word [A-Za-z_][A-Za-z0-9_.-]*; on every other text the model answers `unmodelled` and only the structure is compared; values '
+        'that are containers (`{}` merges with dotted keys instead of conflicting) and undecodable argv bytes (lone surrogates) are outside the model',
     ]
     r = rng_for(out.seed, 'C17-init')
     cases = gen_cases(r, n_init)
@@ -749,6 +764,7 @@ def run(out, drv, info):
     akcases = addkey_settings_cases(rng_for(out.seed, 'C17-addkey'), n_addkey)
     from ..impl import c17_keyfile as KF
     kfchains = [KF.gen_keyfile_chain(rng_for(out.seed, 'C17-keyfile', i)) for i in range(n_keyfile)]
+    cli_plan = cli_stream_plan(out, drv)
     scratch_root = WORK / str(os.getpid())
     scratch_root.mkdir(parents=True, exist_ok=True)
     try:
@@ -758,8 +774,12 @@ def run(out, drv, info):
             impl_chains = pool.map(impl_chain, chains, chunksize=2)
             impl_ak = pool.map(impl_addkey_case, akcases, chunksize=4)
             cli_async = pool.map_async(impl_cli_rotation, cli_rot, chunksize=1)
+            cli_main_async = pool.map_async(impl_cli_main, cli_plan['main'], chunksize=1)
+            cli_oracle_async = pool.map_async(impl_cli_oracle, cli_plan['oracle'], chunksize=1)
             impl_kf = pool.map(impl_keyfile, kfchains, chunksize=3)
             impl_cli = cli_async.get()
+            cli_plan['main_results'] = cli_main_async.get()
+            cli_plan['oracle_results'] = cli_oracle_async.get()
     finally:
         shutil.rmtree(scratch_root, ignore_errors=True)
     model = None
@@ -826,6 +846,7 @@ def run(out, drv, info):
         out.count('longpw:' + ('created' if res.get('created') else 'refused:%s' % res.get('refused')))
         for sig, what in res.get('violations', []):
             out.violation('settings:' + sig, what, {'kind': 'longpw', 'seed': out.seed, 'idx': a_[1], 'kdf': a_[2], 'prefix_len': a_[3]})
+    cli_stream_check(out, drv, cli_plan)
     out.extra['direct_oracle_findings_by_sig'] = _sig_histogram(out)
 
 
@@ -872,7 +893,118 @@ def replay(path, drv):
             res = impl_cli_rotation(rp['scenario'])
             print(json.dumps(res, indent=1))
             return 0 if res['ok'] else 1
+        if str(rp.get('kind', '')).startswith('cli-'):
+            from ..impl import c17_cli as CL
+            return CL.replay_case(rp, drv, _scratch, REPO)
         print('replay kind not supported:', rp.get('kind'))
         return 2
     finally:
         shutil.rmtree(WORK / str(os.getpid()), ignore_errors=True)
+
+
+# ------------------------------------------------------------------ settings written on the command line (`harness/impl/c17_cli.py`)
+def _so_path():
+    return os.environ.get('REPLICAT_VERIF_GCL_SO') or WORK / 'native' / 'libgcl.so'
+
+
+def impl_cli_main(case):
+    from ..common import PYMOD
+    from ..impl import c17_cli as CL
+    return CL.run_main_child(case, _scratch, REPO, PYMOD, _so_path())
+
+
+def impl_cli_oracle(case):
+    from ..common import PYMOD
+    from ..impl import c17_cli as CL
+    return CL.run_oracle(case, _scratch, REPO, PYMOD, _so_path())
+
+
+def cli_stream_plan(out, drv):
+    """generate the cases of the command-line stream (the canonical renderings come from the MODEL, so that what runs through
+    the real code is literally the `renderSettings` of `cli_settings_equals_direct`)"""
+    from ..impl import c17_cli as CL
+    quick = out.tier == 'quick'
+    r = rng_for(out.seed, 'C17-cli')
+    render_log = []
+
+    def render(s):
+        py = CL.py_render(s)
+        if drv is None:
+            return py
+        m = drv.ask({'op': 'settings.cli.render', 'settings': enc_settings(s)})
+        render_log.append((s, py, m))
+        return m['args'] if m.get('expressible') else None
+    cases = CL.gen_args_cases(r, 300 if quick else 5000, lattice_point, render)
+    for i, c in enumerate(cases):
+        c['idx'] = i
+    # through the real main(): the corpus and a sample of every kind
+    n_main = 80 if quick else 700
+    main_cases = []
+    for c in cases:
+        if len(main_cases) >= n_main:
+            break
+        if c['origin'] == 'corpus' or r.random() < (0.3 if quick else 0.15):
+            action = 'init'
+            k = r.random()
+            if c['origin'] != 'corpus' and k < 0.15:
+                action = 'add-key'
+            elif c['origin'] != 'corpus' and k < 0.25:
+                action = 'benchmark'
+            elif c['origin'] != 'corpus' and k < 0.30:
+                action = 'list-snapshots'
+            main_cases.append({'idx': c['idx'], 'kind': c['kind'], 'args': c['args'], 'action': action})
+    # the direct oracle: lattice points through `python -m replicat init`
+    n_or = 14 if quick else 150
+    ro = rng_for(out.seed, 'C17-cli-oracle')
+    oracle = []
+    fixed = [{'encryption': {'kdf': {'n': 16}}, 'chunking': {'min_length': 1000}, 'hashing': {'name': 'blake2b'}},
+             {'encryption': None, 'hashing': {'name': 'sha2', 'bits': 256}},
+             {'hashing': {'name': 'blake2b', 'length': 1}, 'encryption': {'kdf': {'n': 4}}}]
+    tries = 0
+    while len(oracle) < n_or and tries < 20 * n_or:
+        tries += 1
+        s = fixed[len(oracle)] if len(oracle) < len(fixed) else lattice_point(ro)
+        args = render(s)
+        if args is None:
+            continue
+        pairs = [args[i:i + 2] for i in range(0, len(args), 2)]
+        if len(oracle) >= len(fixed) and ro.random() < 0.5:
+            ro.shuffle(pairs)
+        if len(oracle) == 1 or (len(oracle) >= len(fixed) and ro.random() < 0.5):
+            pairs = CL.respell(ro, pairs)          # the README's spellings: `--encryption none`, `4_194_304`, `key-bits`
+        if len(oracle) == 1:
+            pairs = [[p[0], 'none' if p[1].lower() == 'none' else p[1]] for p in pairs]
+        oracle.append({'idx': len(oracle), 'settings': s, 'args': [a for p in pairs for a in p]})
+    flats = [CL.gen_flat_case(rng_for(out.seed, 'C17-cli-flat', i)) for i in range(300 if quick else 6000)]
+    texts = CL.guess_texts(rng_for(out.seed, 'C17-cli-guess'), quick)
+    return {'cases': cases, 'main': main_cases, 'oracle': oracle, 'flats': flats, 'texts': texts, 'render_log': render_log}
+
+
+def cli_stream_check(out, drv, plan):
+    from ..impl import c17_cli as CL
+    # ---- the model's canonical rendering against an independent one
+    for s, py, m in plan['render_log']:
+        if m.get('expressible') and py != m['args']:
+            out.disagreement(f'canonical rendering differs: model {m["args"]}, harness {py}', {'kind': 'cli-render', 'settings_repr': repr(s)})
+        elif not m.get('expressible') and py is not None:
+            out.count('cli-render:model-not-expressible')
+        else:
+            out.count('cli-render:' + ('expressible' if m.get('expressible') else 'not-expressible'))
+    # ---- in-process: parse_cli_settings + flat_to_nested
+    cases = plan['cases']
+    models = drv.ask_many([{'op': 'settings.cli.parse', 'args': c['args']} for c in cases]) if drv is not None else [None] * len(cases)
+    for c, m in zip(cases, models):
+        CL.check_parse_case(out, drv, c, CL.real_parse(c['args']), m)
+    # ---- the real main() in child interpreters
+    for c, res in zip(plan['main'], plan.get('main_results', [])):
+        CL.check_main_case(out, drv, c, res)
+    # ---- direct oracle: command line against init(settings=dict)
+    for c, res in zip(plan['oracle'], plan.get('oracle_results', [])):
+        CL.check_oracle_case(out, c, res)
+    # ---- flat_to_nested on dicts with dotted keys, insertion order random
+    for flat in plan['flats']:
+        CL.check_flat_case(out, drv, flat)
+    # ---- guess_type
+    CL.check_guess_texts(out, drv, plan['texts'])
+    if drv is not None:
+        out.extra['model_table_cli'] = drv.ask({'op': 'settings.cli.table'})
